@@ -13,10 +13,30 @@ SHARD = 60
 
 
 def impl_run(case, workdir):
-    it = Interp(case, workdir)
-    obs = it.run()
+    """Run the case on the implementation; `case["faults"]` (ordinals of mutating library calls
+    that must fail, counted over the whole history) are injected through the module shim."""
+    from . import shim
+    faults = case.get("faults")
+    hooks = None
+    if faults is not None:
+        common.import_repo()
+        hooks = shim.Hooks(faults=faults)
+        shim.install(hooks)
+    try:
+        it = Interp(case, workdir)
+        obs = it.run()
+    finally:
+        if hooks is not None:
+            shim.uninstall()
     it.stats["meta"] = it.meta
+    if hooks is not None:
+        it.stats["mut_log"] = hooks.mut_log
     return obs, it.stats
+
+
+def world0(case):
+    f = case.get("faults")
+    return "init_world" if not f else "(with_faults [%s] init_world)" % "; ".join("%d" % k for k in f)
 
 
 def reduce_obs(obs):
@@ -45,11 +65,11 @@ def coq_case_defs(cases, obss, prefix="c"):
         em = Emit(case)
         out.append("Definition %s%d_h : list hstep :=\n  %s." % (prefix, i, em.history()))
         out.append("Definition %s%d_got : list (string * list string * list string) :=\n %s." % (prefix, i, coq_got(reduce_obs(obs))))
-        out.append("Definition %s%d_spec : bool := match first_bad (ref_history %s %s %s%d_h init_world) %s%d_got with None => true | Some _ => false end." % (
-            prefix, i, cpath(case["cache"]), coq_str(case["name"]), prefix, i, prefix, i))
+        out.append("Definition %s%d_spec : bool := match first_bad (ref_history %s %s %s%d_h %s) %s%d_got with None => true | Some _ => false end." % (
+            prefix, i, cpath(case["cache"]), coq_str(case["name"]), prefix, i, world0(case), prefix, i))
         out.append("Definition %s%d_want : list (list string) :=\n %s." % (prefix, i, coq_obs(obs)))
-        out.append("Definition %s%d_chk : bool := match first_diff (run_history %s %s %s%d_h init_world) %s%d_want with None => true | Some _ => false end." % (
-            prefix, i, cpath(case["cache"]), coq_str(case["name"]), prefix, i, prefix, i))
+        out.append("Definition %s%d_chk : bool := match first_diff (run_history %s %s %s%d_h %s) %s%d_want with None => true | Some _ => false end." % (
+            prefix, i, cpath(case["cache"]), coq_str(case["name"]), prefix, i, world0(case), prefix, i))
     return "\n".join(out)
 
 
@@ -58,8 +78,8 @@ def model_obs(case, workdir, tag="dbg"):
     em = Emit(case)
     txt = COQ_HEADER + "Definition h : list hstep :=\n  %s.\n" % em.history()
     txt += ('Definition nl := String (Ascii.ascii_of_nat 10) "".\n'
-            'Eval vm_compute in join (nl ++ "@@STEP" ++ nl) (map (join nl) (run_history %s %s h init_world)).\n'
-            % (cpath(case["cache"]), coq_str(case["name"])))
+            'Eval vm_compute in join (nl ++ "@@STEP" ++ nl) (map (join nl) (run_history %s %s h %s)).\n'
+            % (cpath(case["cache"]), coq_str(case["name"]), world0(case)))
     rc, out = common.coq_eval(workdir, tag, txt, timeout=600)
     if rc != 0:
         return None, out[-2000:]
